@@ -31,6 +31,14 @@ Implementation driven (all in-process, real code):
     parse_environment_dicts on generated sets of environments (many without variables), application dependencies and virtual
     environments, against coq/Dosini/Envs.v; and the section readers (dosini_to_dict, environment_to_dict) on tables with
     empty sections;
+ R. descriptions written into a directory that ALREADY holds the files of one or two earlier descriptions (the same workflow with more
+    stages / more components / another platform and other variables, the same one, unrelated short and long ones), instance flavour
+    with update_existing True (the loaded description is the LAST one written: full predicate) and False (every file that exists is
+    kept, the missing ones are written), package flavour (the re-written directory loads like a directory written once); the
+    directory before / after and the files of the same write into an empty directory are compared with coq/Dosini/Rewrite.v (dump_dir);
+    C/L/D/R also: variables whose values are YAML scalars of every TYPE (bool, int, float, texts that look like them) at every scope
+    (global, stage, both, platform global / stage, component) in half of the workflows, referenced by arguments; the [META] section of
+    every written stage file is compared with Rewrite.meta_via_file (typed variables -> str -> text layer);
  T. the configparser text layer alone (harness/c19_text.py): tables of sections through the real FlowConfigParser
     (add_section/set/write, read) and hostile raw texts through its reader, against coq/Dosini/Text.v.
 The per-component model comparison of C/D goes through both layers (Model.via_file).
@@ -78,6 +86,12 @@ ASSUMPTIONS = [
     'with .get(key, [])); environment names are compared ignoring case (FlowIR looks them up lower-cased); environments named like the '
     'reserved section SANDBOX or equal to another one ignoring case are outside the guard of C19_environments_through_file and only '
     'compared with the model (stream E); a stage without components below the last stage is open finding F19i',
+    'a variable holding None is no description (FlowIR rejects it): not generated; sequences of writes into one directory are of one '
+    'flavour (instance or package) and every earlier write uses update_existing=True; status.conf / output.conf stand for the files an '
+    'instance inherits from its package (written by the harness next to Dosini.dump when the write updates the directory or they are '
+    'missing); the reference "files of the same write into an empty directory" of an instance is taken in a directory that holds the '
+    'variables files already (an instance never rewrites them; the write that creates variables.conf folds the blueprint of a stage '
+    'into the variables of the stage, see Rewrite.check_meta_case)',
     'stage indices spelled as text (stage10, STAGE10): int() is modelled for decimal digits (coq/Dosini/Stages.v); a sign, blanks or '
     '_ separators after the word stage are not generated',
 ]
@@ -121,6 +135,14 @@ SPECIAL = {
     'resourceRequest.threadsPerCore': [1, 2],
     'resourceManager.kubernetes.gracePeriod': [0, 30, '%(n)s'],
 }
+# the TYPE of the value of a variable: FlowIR variables are YAML scalars (a variables file layered on a package keeps the YAML type,
+# a FlowIR built by a program holds what the program put there); the legacy files store str(value) and a reference %(name)s resolves
+# to that text.  Booleans, integers, floats (plain and exponent notation) and texts that look like one of them, at every scope.
+# (None is no value of a variable: FlowIR itself rejects the description.)
+TYPED_VALUES = [True, False, 0, 4, -1, 1000000, 2.5, 0.05, 1e-05, 1e+22, 'True', 'true', 'False', 'TRUE', '007', '1.0', '1e3', 'None',
+                'yes', '']
+TYPED_REF_VARS = {'n': 3, 'Count': 5, 'w': 12.5, 'Wall': 30.0, 'Flag': True, 'DoResolve': False, 'flag': False, 'doresolve': True}
+SCOPES = ['global', 'stage', 'global+stage', 'platform-global', 'platform-stage', 'component']
 BARE_PERCENT = ['50% done', 'date +%Y-%m-%d']
 HOSTILE = ['100%%', 'a=b', 'k: v', 'x # not a comment', 'semi;colon', 'a  =  b : c', '[bracket]', 'tab\there',
            'quote "q" \'s\'', 'back\\slash', '%(n)s%%', 'http://h:8080/p?a=b&c=d', '-x=1 --y:2',
@@ -478,7 +500,7 @@ def stage_weights(n):
     return [float(base)] * (n - 1) + [float(1 - base * (n - 1))]
 
 
-def gen_doc(rng, cover, hostile=False, long=False):
+def gen_doc(rng, cover, hostile=False, long=False, typed=None):
     """one workflow description; `cover` is a list of option paths that must be used by this workflow.
     long: more than ten stages (indices of two digits in stage file names, section names STAGE10, references to
     stage10.X, `stages` lists of outputs, stage variables, blueprints); most stages hold one tiny component"""
@@ -664,37 +686,201 @@ def gen_doc(rng, cover, hostile=False, long=False):
         doc.setdefault('output', {})['Nothing'] = {}
     if 'output-stages' in empties:
         doc.setdefault('output', {})['Anywhere'] = {'data-in': 'stage%d.%s/any.txt:copy' % (comps[-1]['stage'], comps[-1]['name']), 'stages': []}
+    if typed is None:
+        typed = rng.random() < 0.5
+    if typed:
+        add_typed_variables(rng, doc, rng.sample(SCOPES, rng.choice([1, 2, 3, len(SCOPES)])))
     platform = 'plat' if 'plat' in doc['platforms'] and rng.random() < 0.6 else 'default'
     return {'doc': doc, 'platform': platform}
+
+
+def add_typed_variables(rng, doc, scopes, retype=None):
+    """variables whose values are YAML scalars of every type at the given scopes, each referenced by the arguments of a component that
+    sees it; `retype`: the variables every generated reference points at (REF_VARS) hold typed values instead of texts"""
+    comps = doc['components']
+    dv = doc['variables']['default']
+    dv.setdefault('stages', {})
+
+    def tval():
+        return copy.deepcopy(rng.choice(TYPED_VALUES))
+
+    def use(comp, name):
+        cmd = comp.setdefault('command', {})
+        a = cmd.get('arguments')
+        ref = '--%s=%%(%s)s' % (name, name)
+        cmd['arguments'] = '%s %s' % (a, ref) if isinstance(a, str) and a else ref
+
+    if retype is None:
+        retype = rng.random() < 0.5
+    if retype:
+        for k in sorted(TYPED_REF_VARS):
+            if k in dv['global'] and rng.random() < 0.8:
+                dv['global'][k] = TYPED_REF_VARS[k]
+    for sc in scopes:
+        comp = rng.choice(comps)
+        st = comp['stage']
+        if sc == 'global':
+            dv['global']['tv_g'] = tval()
+            use(comp, 'tv_g')
+        elif sc == 'stage':
+            dv['stages'].setdefault(st, {})['tv_s'] = tval()
+            use(comp, 'tv_s')
+        elif sc == 'global+stage':
+            dv['global']['tv_gs'] = tval()
+            dv['stages'].setdefault(st, {})['tv_gs'] = tval()
+            use(comp, 'tv_gs')
+            use(rng.choice(comps), 'tv_gs')
+        elif sc in ('platform-global', 'platform-stage'):
+            if 'plat' not in doc['platforms']:
+                continue
+            dv['global']['tv_p'] = tval()
+            pv = doc['variables'].setdefault('plat', {})
+            if sc == 'platform-global':
+                pv.setdefault('global', {})['tv_p'] = tval()
+            else:
+                pv.setdefault('stages', {}).setdefault(st, {})['tv_p'] = tval()
+            use(comp, 'tv_p')
+        elif sc == 'component':
+            comp.setdefault('variables', {})['tv_c'] = tval()
+            use(comp, 'tv_c')
+    return doc
 
 
 def norm_vars(d):
     return {str(k): str(v) for k, v in (d or {}).items()}
 
 
-def instance_roundtrip(w):
-    """returns dict(inst=, loaded=, error=) — real FlowIRConcrete.instance, Dosini.dump, Dosini.load_from_directory"""
+def listing(conf):
+    """{relative file name: digest of its content} of a configuration directory"""
+    out = {}
+    for root, _ds, fs in os.walk(conf):
+        for f in fs:
+            p = os.path.join(root, f)
+            out[os.path.relpath(p, conf).replace(os.sep, '/')] = hashlib.md5(open(p, 'rb').read()).hexdigest()[:12]
+    return out
+
+
+def write_description(w, conf, update_existing=True):
+    """one write of a description into a configuration directory, as DOSINIExperimentConfiguration does it for an instance
+    (FlowIRConcrete.instance + Dosini.dump(is_instance=True); status.conf / output.conf stand for the files the instance inherits from
+    its package: written when the write updates the directory or they are missing); flavour 'package': Dosini.dump of the raw
+    description with is_instance=False.  Returns the description handed to Dosini.dump."""
     import experiment.model.frontends.dosini as D
     import experiment.model.frontends.flowir as F
+    concrete = F.FlowIRConcrete(copy.deepcopy(w['doc']), w['platform'], {})
+    if w.get('flavour') == 'package':
+        raw = concrete.raw()
+        D.Dosini.dump(copy.deepcopy(raw), conf, is_instance=False, update_existing=update_existing)
+        return raw
+    inst = concrete.instance(ignore_errors=True, inject_missing_fields=False, fill_in_all=False, is_primitive=True)
+    D.Dosini.dump(copy.deepcopy(inst), conf, is_instance=True, update_existing=update_existing)
+    if update_existing or not os.path.exists(os.path.join(conf, 'status.conf')):
+        D.Dosini._dump_status(copy.deepcopy(inst), conf)
+    if update_existing or not os.path.exists(os.path.join(conf, 'output.conf')):
+        D.Dosini._dump_output(copy.deepcopy(inst), conf)
+    return inst
+
+
+def read_meta_sections(conf):
+    """{stage index: entries of [META] as the loader reads them (raw), None when the stage file has no such section}"""
+    import experiment.model.frontends.dosini as D
+    out = {}
+    for stage, path in D.Dosini._discover_stages(conf, True).items():
+        cfg = D.FlowConfigParser()
+        cfg.read([path])
+        out[stage] = ({o: cfg.get(D.STAGE_META_SECTION, o, raw=True) for o in cfg.options(D.STAGE_META_SECTION)}
+                      if cfg.has_section(D.STAGE_META_SECTION) else None)
+    return out
+
+
+def instance_roundtrip(w):
+    """returns dict(inst=, loaded=, error=) — real FlowIRConcrete.instance, Dosini.dump, Dosini.load_from_directory.
+    w['before']: descriptions written, in turn, into the SAME directory before w is (each with update_existing=True);
+    w['update_existing']: the flag of the last write (default True)."""
+    import experiment.model.frontends.dosini as D
     tmp = tempfile.mkdtemp(prefix='verif_c19_')
+    package = w.get('flavour') == 'package'
+    update = w.get('update_existing', True)
     try:
-        concrete = F.FlowIRConcrete(copy.deepcopy(w['doc']), w['platform'], {})
-        inst = concrete.instance(ignore_errors=True, inject_missing_fields=False, fill_in_all=False, is_primitive=True)
         conf = os.path.join(tmp, 'conf')
+        ret = {}
+        for b in w.get('before', []):
+            try:
+                write_description(dict(b, flavour=w.get('flavour')), conf, True)
+            except Exception:
+                pass    # whatever the directory holds now is what the last write finds
+        sequence = bool(w.get('before')) or not update or package
+        if sequence:
+            ret['dir_before'] = listing(conf)
+            fresh = os.path.join(tmp, 'fresh')
+            if not package:
+                # an instance never rewrites a variables file, and the write that does write one folds the blueprint of a stage into
+                # the variables of the stage (see explore_instances): the reference directory holds the variables files already
+                for f in ret['dir_before']:
+                    if f == 'variables.conf' or f.startswith('variables.d/'):
+                        os.makedirs(os.path.dirname(os.path.join(fresh, f)), exist_ok=True)
+                        shutil.copy(os.path.join(conf, f), os.path.join(fresh, f))
+            try:
+                write_description(w, fresh, update)
+                ret['dir_fresh'] = listing(fresh)
+                if package:
+                    ret['loaded_fresh'] = D.Dosini.load_from_directory(fresh, [], {}, is_instance=False, out_errors=[])
+            except Exception as e:
+                ret['dir_fresh'] = None
+        inst = None
         try:
-            D.Dosini.dump(copy.deepcopy(inst), conf, is_instance=True, update_existing=True)
-            D.Dosini._dump_status(copy.deepcopy(inst), conf)
-            D.Dosini._dump_output(copy.deepcopy(inst), conf)
+            inst = write_description(w, conf, update)
         except Exception as e:
-            return {'inst': inst, 'loaded': None, 'error': 'dump: %s' % type(e).__name__, 'detail': str(e)[:300]}
+            return dict(ret, inst=inst, loaded=None, error='dump: %s' % type(e).__name__, detail=str(e)[:300])
+        if sequence:
+            ret['dir_after'] = listing(conf)
         try:
             errs = []
-            loaded = D.Dosini.load_from_directory(conf, [], {}, is_instance=True, out_errors=errs)
+            loaded = D.Dosini.load_from_directory(conf, [], {}, is_instance=not package, out_errors=errs)
+            if not package:
+                ret['meta'] = read_meta_sections(conf)
         except Exception as e:
-            return {'inst': inst, 'loaded': None, 'error': 'load: %s' % type(e).__name__, 'detail': str(e)[:300]}
-        return {'inst': inst, 'loaded': loaded, 'error': None, 'load_errors': [type(e).__name__ for e in errs]}
+            return dict(ret, inst=inst, loaded=None, error='load: %s' % type(e).__name__, detail=str(e)[:300])
+        return dict(ret, inst=inst, loaded=loaded, error=None, load_errors=[type(e).__name__ for e in errs])
     finally:
         shutil.rmtree(tmp, ignore_errors=True)
+
+
+# ---- the directory over a sequence of writes: Python mirror of Rewrite.dump_dir (the predicate; the model is compared inside Coq)
+def _is_stage(f):
+    return f.startswith('stages.d/stage') and f.endswith('.conf')
+
+
+def cleaned(is_instance, f):
+    if is_instance:
+        return _is_stage(f) and f.endswith('.instance.conf')
+    return ((_is_stage(f) and not f.endswith('.instance.conf')) or
+            (f.startswith('experiment') and f.endswith('.conf') and '/' not in f) or
+            (f.startswith('variables.d/') and f.endswith('.conf')))
+
+
+def reads(is_instance, f):
+    if is_instance:
+        return f in ('experiment.instance.conf', 'output.conf', 'status.conf') or cleaned(True, f)
+    return (f in ('variables.conf', 'output.conf', 'status.conf') or (cleaned(False, f) and f != 'experiment.instance.conf'))
+
+
+def expected_dir(is_instance, update, old, fresh):
+    if not update:
+        return dict(fresh, **old)
+    out = {f: c for f, c in old.items() if not cleaned(is_instance, f)}
+    for f, c in fresh.items():
+        if not (is_instance and f in out and (f == 'variables.conf' or f.startswith('variables.d/'))):
+            out[f] = c
+    return out
+
+
+def cdir(d):
+    return clist(sorted(d.items()), lambda kv: '(%s, %s)' % (cstr(kv[0]), cstr(kv[1])))
+
+
+def ctvars(d):
+    return clist(sorted((str(k), v) for k, v in (d or {}).items()), lambda kv: '(%s, %s)' % (cstr(kv[0]), cval(kv[1])))
 
 
 def observe(flowir):
@@ -870,8 +1056,90 @@ def empty_members(doc):
     return sorted(out)
 
 
+def typed_scopes(doc):
+    """the scopes at which a workflow holds a variable whose value is not text"""
+    def typed(d):
+        return any(not isinstance(v, str) for v in (d or {}).values())
+    out = set()
+    for plat, pv in (doc.get('variables') or {}).items():
+        pre = '' if plat == 'default' else 'platform-'
+        if typed(pv.get('global')):
+            out.add(pre + 'global')
+        if any(typed(sv) for sv in (pv.get('stages') or {}).values()):
+            out.add(pre + 'stage')
+    if any(typed(c.get('variables')) for c in doc['components']):
+        out.add('component')
+    return sorted(out)
+
+
+def earlier_version(rng, w, relation):
+    """a description that was written into the directory before w: w with MORE stages (its last components moved to / new components in
+    later stages), with more components in its stages, with another platform and other variables, the same one, or an unrelated one"""
+    doc = copy.deepcopy(w['doc'])
+    comps = doc['components']
+    nst = max(c['stage'] for c in comps) + 1
+    if relation == 'more-stages':
+        extra = rng.choice([1, 1, 2, 10])
+        if len(comps) >= 2 and rng.random() < 0.5:
+            # the last component lived in a stage of its own
+            comps[-1]['stage'] = nst
+            comps[-1].pop('references', None)
+            extra -= 1
+            nst += 1
+        for k in range(extra):
+            comps.append({'name': 'Old%d' % k, 'stage': nst + k, 'command': {'executable': 'echo', 'arguments': 'old %(n)s'},
+                          'variables': {'was': 'here'}})
+            doc['variables']['default'].setdefault('stages', {})[nst + k] = {'oldvar': 'O%d' % k}
+    elif relation == 'more-components':
+        for k in range(rng.choice([1, 2, 3])):
+            comps.append({'name': 'Old%d' % k, 'stage': rng.randrange(nst), 'command': {'executable': 'echo', 'arguments': 'old'}})
+        doc['variables']['default']['global']['oldglobal'] = 'G'
+    elif relation == 'other-platform':
+        doc['platforms'] = sorted(set(doc['platforms']) | {'oldplat'})
+        doc['variables']['oldplat'] = {'global': {'q': 'oldq', 'n': '9'}, 'stages': {0: {'n': '8'}}}
+        doc['environments']['oldplat'] = {'oldenv': {'OLD': '1'}}
+        doc['environments']['default']['oldenv'] = {'OLD': '0'}
+        doc['variables']['default']['global']['oldglobal'] = 'G'
+        doc.pop('output', None)
+    elif relation == 'same':
+        pass
+    return {'doc': doc, 'platform': w['platform'] if relation != 'other-platform' or rng.random() < 0.5 else 'oldplat'}
+
+
+RELATIONS = ['more-stages', 'more-stages', 'more-components', 'other-platform', 'same', 'other', 'other-long']
+
+
+def rewrite_cases(rng, paths, n_instance, n_package):
+    """stream R: descriptions written into a directory that ALREADY holds the files of one or two earlier descriptions"""
+    out = []
+    for i in range(n_instance + n_package):
+        package = i >= n_instance
+        while True:
+            w = gen_doc(rng, rng.sample(paths, 6), long=(rng.random() < 0.1))
+            if not (package and classes_of_workflow(w)):
+                break
+        rel = RELATIONS[i % len(RELATIONS)]
+        if rel.startswith('other'):
+            before = [gen_doc(rng, rng.sample(paths, 4), long=(rel == 'other-long'), typed=False)]
+        else:
+            before = [earlier_version(rng, w, rel)]
+        if rng.random() < 0.3:
+            before.insert(0, earlier_version(rng, w, rng.choice(RELATIONS[:4])))
+        w = dict(w, before=before, relation=rel)
+        if package:
+            w['flavour'] = 'package'
+        elif i % 4 == 3:
+            w['update_existing'] = False
+        out.append(w)
+    # update_existing=False into an EMPTY directory writes everything
+    for _ in range(max(2, n_instance // 8)):
+        out.append(dict(gen_doc(rng, rng.sample(paths, 6)), update_existing=False))
+    return out
+
+
 def explore_instances(ctx, workflows, tag):
     terms, keep = [], []
+    mterms, mkeep, dterms, dkeep = [], [], [], []
     default_tag = tag
     for w in workflows:
         w, tag = w if isinstance(w, tuple) else (w, default_tag)
@@ -898,6 +1166,46 @@ def explore_instances(ctx, workflows, tag):
             ctx.count('with:replication')
         cls = classes_of_workflow(w)
         desc = {'stream': tag, 'workflow': w}
+        package = w.get('flavour') == 'package'
+        update = w.get('update_existing', True)
+        if w.get('before'):
+            ctx.count('written_into_a_directory_holding_an_earlier_description:%s:update_existing=%s' % (w.get('flavour', 'instance'), update))
+            ctx.count('earlier_description:' + str(w.get('relation', 'other')))
+        elif not update:
+            ctx.count('written_into_an_empty_directory:update_existing=False')
+        if typed_scopes(doc):
+            ctx.count('with:typed_variables')
+            for sc in typed_scopes(doc):
+                ctx.count('typed_variable:' + sc)
+        # ---- the directory after the write: what was there, what the same write puts into an empty directory
+        if r.get('dir_after') is not None and r.get('dir_fresh') is not None:
+            want = expected_dir(not package, update, r['dir_before'], r['dir_fresh'])
+            if want != r['dir_after']:
+                stale = sorted(f for f in r['dir_after'] if reads(not package, f) and f not in r['dir_fresh'] and cleaned(not package, f))
+                odd = sorted(f for f in set(want) | set(r['dir_after']) if want.get(f) != r['dir_after'].get(f))
+                ctx.fail(dict(desc, files=odd[:6]),
+                         ('a file of the earlier description that the load reads survives the write: %s' % stale[0].split('/')[0]) if stale and update
+                         else 'the directory after the write is not the earlier files %s the files of this write [%s]' % (
+                             'cleaned up and replaced by' if update else 'kept, plus the missing ones of', odd[0].split('/')[0]), cls)
+            dterms.append('(%s, %s, %s, %s, %s)' % (common.cbool(not package), common.cbool(update), cdir(r['dir_before']),
+                                                    cdir(r['dir_fresh']), cdir(r['dir_after'])))
+            dkeep.append(desc)
+        if package:
+            # the package flavour: what is loaded from the re-written directory is what is loaded from a directory written once
+            if r['error'] or 'loaded_fresh' not in r:
+                if 'loaded_fresh' in r:
+                    ctx.fail(dict(desc, error=r['error'], detail=r.get('detail')),
+                             'a package written into a directory holding an earlier one cannot be loaded although the same write into an '
+                             'empty directory can (%s)' % r['error'], cls)
+                continue
+            d = first_diff(r['loaded_fresh'], r['loaded'])
+            if d:
+                ctx.fail(dict(desc, difference=d), 'a package written into a directory holding an earlier one loads differently from the '
+                         'same package written into an empty directory [' + d.split(':')[0].split('.')[1] + ']', cls)
+            continue
+        if w.get('before') and not update and not r['error']:
+            # nothing was to be replaced: the directory is checked above, the load reads the earlier description's files
+            continue
         if r['error']:
             ctx.fail(dict(desc, error=r['error'], detail=r.get('detail')),
                      'an instance description cannot be written and loaded again (%s)' % r['error'], cls)
@@ -920,6 +1228,22 @@ def explore_instances(ctx, workflows, tag):
             cout = copt(None if lc is None else ccomp(flatten(lc), norm_vars(lc.get('variables'))))
             terms.append('(%s, %s, %s)' % (cstr(c['name']), cin, cout))
             keep.append((desc, c, lc))
+        # ---- model: the [META] section of every stage file (typed global variables updated with the typed variables of the stage)
+        # (a write that also writes variables.conf - the first one into a directory - folds the blueprint of a stage into the variables
+        # of that stage of the description it was handed, a side effect of Dosini._dump_variables: these entries, rendered by the
+        # writers of the options, are part of the variables of the stage when the stage file is written)
+        import experiment.model.frontends.dosini as D
+        iv = r['inst'].get('variables', {}).get('default', {})
+        first_write = 'variables.conf' not in (r.get('dir_before') or {})
+        bps = ((r['inst'].get('blueprint') or {}).get('default') or {}).get('stages') or {}
+        for st, meta in sorted((r.get('meta') or {}).items()):
+            stages_vars = iv.get('stages', {}) or {}
+            gv, sv = iv.get('global', {}) or {}, stages_vars.get(st, {}) or {}
+            bp = {}
+            if first_write and st in stages_vars and st in bps:
+                bp = {k: ('None' if v is None else v) for k, v in D.Dosini._flowir_component_to_dict(copy.deepcopy(bps[st])).items()}
+            mterms.append('(%s, %s, %s, %s)' % (ctvars(gv), ctvars(sv), ctvars(bp), copt(cini(meta if meta is not None else {}))))
+            mkeep.append((desc, st, gv, dict(sv, **{'blueprint:' + k: v for k, v in bp.items()}), meta))
         if ncomp >= 2:
             ctx.sample({'stream': tag, 'platform': w['platform'], 'components': ['stage%d.%s' % (c['stage'], c['name']) for c in doc['components']],
                         'first_component': doc['components'][0]}, limit=8)
@@ -929,6 +1253,16 @@ def explore_instances(ctx, workflows, tag):
         ctx.disagree(dict(desc, component=c), lc,
                      ctx.model_eval(HEADER, "let '(n, c, _) := %s in via_file n c" % terms[i])[:600] if k < 2 else '',
                      'C19 instance files: Dosini.dump + load_from_directory per component vs Dosini.Model.via_file (text layer + reader)')
+    RH = HEADER.replace('V.Dosini.Model.', 'V.Dosini.Model V.Dosini.Rewrite.')
+    bad = ctx.model_mismatches(RH, mterms, 'check_meta_case', chunk=200, name='%s_meta' % default_tag)
+    for k, i in enumerate(bad):
+        desc, st, gv, sv, meta = mkeep[i]
+        ctx.disagree(dict(desc, stage=st, global_variables={k2: repr(v) for k2, v in gv.items()}, stage_variables={k2: repr(v) for k2, v in sv.items()}),
+                     meta, ctx.model_eval(RH, "let '(g, s, b, _) := %s in meta_via_file true g (update s b)" % mterms[i])[:600] if k < 2 else '',
+                     'C19 [META] section of an instance stage file: Dosini.configuration_for_stage + FlowConfigParser vs Dosini.Rewrite.meta_via_file')
+    bad = ctx.model_mismatches(RH, dterms, 'check_dir_case', chunk=100, name='%s_dir' % default_tag)
+    for k, i in enumerate(bad):
+        ctx.disagree(dkeep[i], None, '', 'C19 directory after Dosini.dump into a directory holding earlier files vs Dosini.Rewrite.dump_dir')
 
 
 # ------------------------------------------------------------------ corpus (witnesses of repaired defects run first)
@@ -936,13 +1270,14 @@ def int_keys(w):
     """a workflow read from a JSON file (corpus, replay): the stage indices that key dictionaries are integers again"""
     def conv(d):
         return {(int(k) if isinstance(k, str) and k.isdigit() else k): v for k, v in (d or {}).items()}
-    doc = w['doc']
-    if 'status-report' in doc:
-        doc['status-report'] = conv(doc['status-report'])
-    for sec in ('variables', 'blueprint'):
-        for plat in (doc.get(sec) or {}).values():
-            if isinstance(plat, dict) and 'stages' in plat:
-                plat['stages'] = conv(plat['stages'])
+    for x in [w] + list(w.get('before', [])):
+        doc = x['doc']
+        if 'status-report' in doc:
+            doc['status-report'] = conv(doc['status-report'])
+        for sec in ('variables', 'blueprint'):
+            for plat in (doc.get(sec) or {}).values():
+                if isinstance(plat, dict) and 'stages' in plat:
+                    plat['stages'] = conv(plat['stages'])
     return w
 
 
@@ -973,7 +1308,11 @@ def run(ctx):
                 'variable, component or entry; distinct by content; A also: per backend of the running code and per name of its option '
                 'table a component of that backend (option or variable), P: a component of each backend loaded first, then probe components '
                 'holding every backend option name; C/D/L: environments without variables in half of the workflows, other EMPTY members '
-                '(stage variables, blueprint, executors, output/status sections and entries, empty lists) in 35%, a stage without components in 4%')
+                '(stage variables, blueprint, executors, output/status sections and entries, empty lists) in 35%, a stage without components in 4%; '
+                'typed variables (bool/int/float/number-like texts at 1..6 scopes, REF_VARS retyped in half of them) in 50% of the C/L/D/R workflows; '
+                'R: 28 sequences per quick run (20 instance - every 4th with update_existing=False - and 8 package; relation of the earlier '
+                'description cycled over more-stages x2, more-components, other-platform, same, other, other-long; 30% with a second earlier one) '
+                '+ update_existing=False into an empty directory')
     gen_path = os.path.join(common.COQ, COQ_DIR, 'Generated.v')
     ctx.extra['generated_tables'] = {
         'regenerated_before_proof_build': True,
@@ -1013,6 +1352,7 @@ def run(ctx):
     flows = [(w, 'C') for w in flows]
     flows += [(gen_doc(rng, rng.sample(paths, 12), long=True), 'L') for _ in range(6 if quick else 60)]
     flows += [(gen_doc(rng, rng.sample(paths, 10), hostile=True), 'D') for _ in range(15 if quick else 150)]
+    flows += [(w, 'R') for w in rewrite_cases(rng, paths, 20 if quick else 200, 8 if quick else 80)]
     explore_instances(ctx, flows, 'CLD')
     c19_envs.explore(ctx, 150 if quick else 1500)
     c19_stages.explore(ctx, 60 if quick else 600)
